@@ -18,6 +18,8 @@ SIMPLE_PATS = [
     r'.*?(\d+)', r'\s*$', r'(?P<w>\w+)', r'.*(gamma|beta) (\d+)?', r'x*', r'(.*)',
     r'(?s)(.*)', r'[^\n]*é', r'(\d+)', r'.*\b(S|B|E)\b', r'(\S+) (\S+) (\S+)',
     r'.+', r'(\w+)?\s*(\d+)?', r'.*(\d)(\d)?',
+    # back-references and a conditional: a pattern's group NUMBERS are its own
+    r'(\w+) \1\b', r'.*\b(\w+)\b.* \1$', r'(x)?(?(1)x| )\w+', r'(?P<v>\w)\w* (?P=v)',
 ]
 HINTS = [None, None, None, 'beta', r'\d', 'zzz', r'^a', 'S', r'\s$']
 TAGS = [None, 't1', 't2', 't1', 'shared', 's1-start']
